@@ -192,7 +192,6 @@ func (e *MetaCDC) ReloadTask() {
 		newCollectionNames := GetCollectionNamesFromTaskInfo(taskInfo)
 		e.collectionNames.data[uKey] = append(e.collectionNames.data[uKey], newCollectionNames...)
 		e.collectionNames.excludeData[uKey] = append(e.collectionNames.excludeData[uKey], taskInfo.ExcludeCollections...)
-		e.collectionNames.excludeData[uKey] = lo.Uniq(e.collectionNames.excludeData[uKey])
 		e.collectionNames.extraInfos[uKey] = model.ExtraInfo{
 			EnableUserRole: e.collectionNames.extraInfos[uKey].EnableUserRole || taskInfo.ExtraInfo.EnableUserRole,
 		}
@@ -327,6 +326,20 @@ func matchCollectionName(sampleCollection, targetCollection string) (bool, bool)
 		db1 == cdcreader.AllDatabase || collection1 == cdcreader.AllCollection
 }
 
+// removeOnce removes one occurrence of every name from the list: the exclude list holds one
+// entry per task that carved the name out, and a task gives back only its own entries.
+func removeOnce(list []string, names []string) []string {
+	for _, name := range names {
+		for i, v := range list {
+			if v == name {
+				list = append(list[:i:i], list[i+1:]...)
+				break
+			}
+		}
+	}
+	return list
+}
+
 func (e *MetaCDC) checkDuplicateCollection(uKey string,
 	newCollectionNames []string,
 	extraInfo model.ExtraInfo,
@@ -445,7 +458,7 @@ func (e *MetaCDC) Create(req *request.CreateRequest) (resp *request.CreateRespon
 	revertCollectionNames := func() {
 		e.collectionNames.Lock()
 		defer e.collectionNames.Unlock()
-		e.collectionNames.excludeData[uKey] = lo.Without(e.collectionNames.excludeData[uKey], excludeCollectionNames...)
+		e.collectionNames.excludeData[uKey] = removeOnce(e.collectionNames.excludeData[uKey], excludeCollectionNames)
 		e.collectionNames.data[uKey] = lo.Without(e.collectionNames.data[uKey], newCollectionNames...)
 		if req.ExtraInfo.EnableUserRole {
 			e.collectionNames.extraInfos[uKey] = model.ExtraInfo{}
@@ -1436,7 +1449,7 @@ func (e *MetaCDC) delete(taskID string) error {
 	uKey := getTaskUniqueIDFromInfo(info)
 	collectionNames := GetCollectionNamesFromTaskInfo(info)
 	e.collectionNames.Lock()
-	e.collectionNames.excludeData[uKey] = lo.Without(e.collectionNames.excludeData[uKey], info.ExcludeCollections...)
+	e.collectionNames.excludeData[uKey] = removeOnce(e.collectionNames.excludeData[uKey], info.ExcludeCollections)
 	e.collectionNames.data[uKey] = lo.Without(e.collectionNames.data[uKey], collectionNames...)
 	if info.ExtraInfo.EnableUserRole {
 		e.collectionNames.extraInfos[uKey] = model.ExtraInfo{}
